@@ -50,6 +50,24 @@ PLANTS = {
     "keyword_args_mixed": ["x = h1(x, q=p)"],
     "keyword_args_swapped": ["x = h1(q=p, v=x)"],
     "starred_args": ["t = (x, p)", "x = h1(*t)"],
+    # keyword arguments on every kind of callee (each has its own call checker)
+    "kw_panic": ["if x > 100:", "    panic(\"boom\", signal=42)"],
+    "kw_panic_extra": ["if x > 100:", "    panic(\"boom\", x, signal=42)"],
+    "kw_exit": ["if x > 100:", "    exit(\"bye\", 3, signal=42)"],
+    "kw_array": ["xs = array(1, 2, x, extra=5)", "x = xs[2] + 1"],
+    "kw_result": ["result(\"t\", value=x)"],
+    "kw_result_tag": ["result(tag=\"t\", value=x)"],
+    "kw_range": ["for i in range(stop=3):", "    x += i"],
+    "kw_len": ["xs = array(1, 2, 3)", "x = x + len(obj=xs)"],
+    "kw_int": ["x = x + int(x=2.5)"],
+    "kw_abs": ["x = abs(x=x - 5)"],
+    "kw_method": ["xs = array(1, 2, 3)", "ys = xs.copy(deep=True)", "x = x + ys[0]"],
+    "kw_nested_def": ["def g(z: int) -> int:", "    return z + 1", "x = g(z=x)"],
+    "kw_comptime": ["x = x + comptime(1 + 1, extra=3)"],
+    "kw_qubit_ops": ["q = qubit()", "h(q=q)", "x = x + 1", "discard(q)"],
+    "kw_measure": ["q = qubit()", "bb = measure(q=q)", "x = x + 1"],
+    "kw_state_result": ["q = qubit()", "state_result(\"s\", q, extra=1)", "discard(q)", "x = x + 1"],
+    "kw_barrier": ["q = qubit()", "barrier(q, extra=1)", "discard(q)", "x = x + 1"],
     "default_param": ["def g(z: int = 5) -> int:", "    return z + 1", "x = g()"],
     "default_param_given": ["def g(z: int, w: int = 5) -> int:", "    return z + w", "x = g(x)"],
     "decorator_nested": ["@twice", "def g(z: int) -> int:", "    return z + 1", "x = g(x)"],
